@@ -600,7 +600,7 @@ class Struct(Type):
                 # Add the newly generated fields from the anon field
                 self._fields_desc.update(updated_fields)
                 real_fields += [(name, fld, True)
-                                for name, fld in field.fields]
+                                for name, fld, _ in field.all_fields]
 
                 # Rename the anonymous field
                 fname = '__anon_%x' % uniq_count
